@@ -288,6 +288,15 @@ def _gen_session(wl, plan, s, plots):
                     op['only_result'] = wl.random() < 0.5
                 ops.append(op)
                 n_plots += 1
+    if plan['config'] == 'sequential' and wl.random() < 0.25:
+        # the same call twice on the same array object, whose contents the caller rewrites in between
+        method = wl.choice(('cycles', 'amp'))
+        cfop = {'fn': 'cf', 'sig': 'S0', 'center': wl.choice(('peak', 'trough')), 'method': method,
+                'th': wl.choice((None, 'THC0')) if method == 'cycles' else wl.choice((None, 'THA0')),
+                'bk': None, 'fe': wl.choice((None, 'FE0')), 'rs': True}
+        ops.append(dict(cfop))
+        ops.append({'fn': 'user_edit', 'obj': 'S0', 'key': None, 'value': wl.choice(('scale', 'negate', 'reverse'))})
+        ops.append(dict(cfop))
     for op in ops:
         if op['fn'] in ('cf', 'shape', 'cyclepoints', 'extrema', 'bfrac', 'bandamp', 'cf2d', 'cf3d') \
                 and wl.random() < 0.25:
